@@ -19,6 +19,8 @@ from typing import Any, Dict, List, Optional
 import numpy as np
 
 NONE, WARN, RAISE, RAISE_SE = 0, 1, 2, 3   # RAISE_SE: the pass raises fsic's own SolutionError (e.g. from a nested model)
+WARN_USER, WARN_DEPR = 4, 5                # warnings of other categories than NumPy's RuntimeWarning (user code may warn anything)
+HOOK_WARN_USER = 3
 
 
 class ScriptedFault(ArithmeticError):
@@ -92,6 +94,8 @@ def make_scripted(N: int, *, with_z: bool = False, with_x: bool = True, base=Non
                 raise HookFault('scripted pre-hook fault')
             if kb == WARN:
                 warnings.warn('scripted pre-hook warning', RuntimeWarning)
+            if kb == HOOK_WARN_USER:
+                warnings.warn('scripted pre-hook warning (UserWarning)', UserWarning)
             st['log'].append(('before_done', iteration))
 
         def solve_t_after(self, t, *, errors='raise', catch_first_error=True, iteration=None, **kwargs):
@@ -103,6 +107,8 @@ def make_scripted(N: int, *, with_z: bool = False, with_x: bool = True, base=Non
                 raise HookFault('scripted post-hook fault')
             if ka == WARN:
                 warnings.warn('scripted post-hook warning', RuntimeWarning)
+            if ka == HOOK_WARN_USER:
+                warnings.warn('scripted post-hook warning (UserWarning)', UserWarning)
             if with_z and s.zpost is not None:
                 self.__dict__['_Z'][t] = s.zpost   # a post-solution calculation that changes a (non-check) variable
             st['log'].append(('after_done', iteration))
@@ -124,7 +130,12 @@ def make_scripted(N: int, *, with_z: bool = False, with_x: bool = True, base=Non
                         if kind == RAISE_SE:
                             from fsic.exceptions import SolutionError
                             raise SolutionError('scripted nested solution error')
-                        warnings.warn('scripted evaluation warning', RuntimeWarning)
+                        if kind == WARN_USER:
+                            warnings.warn('scripted evaluation warning (UserWarning)', UserWarning)
+                        elif kind == WARN_DEPR:
+                            warnings.warn('scripted evaluation warning (DeprecationWarning)', DeprecationWarning)
+                        else:
+                            warnings.warn('scripted evaluation warning', RuntimeWarning)
                 if i < N:
                     self.__dict__['_Y%d' % i][t] = s.v[p][i]
             if with_z:
@@ -257,6 +268,8 @@ def ref_solve_t(
         return fail_exc('SolutionError', 'HookFault')
     if _tb(script.kb == WARN) and strict:
         return fail_exc('SolutionError', 'RuntimeWarning')
+    if _tb(script.kb == HOOK_WARN_USER) and strict:
+        return fail_exc('SolutionError', 'UserWarning')
 
     def finish_fail(k: int) -> Outcome:
         o.status, o.iters = 'F', k
@@ -280,7 +293,8 @@ def ref_solve_t(
                         faulted = 'SolutionError'
                         break
                     if strict:
-                        faulted = 'RuntimeWarning'
+                        # any warning, whatever its category, is the first error
+                        faulted = 'UserWarning' if _tb(kind == WARN_USER) else 'DeprecationWarning' if _tb(kind == WARN_DEPR) else 'RuntimeWarning'
                         break
             if i < N:
                 cells[check[i]][tc] = script.v[k][i]
@@ -338,6 +352,9 @@ def ref_solve_t(
             if _tb(script.ka == WARN) and strict:
                 o.status = o.iters = None
                 return fail_exc('SolutionError', 'RuntimeWarning')
+            if _tb(script.ka == HOOK_WARN_USER) and strict:
+                o.status = o.iters = None
+                return fail_exc('SolutionError', 'UserWarning')
             if script.with_z and script.zpost is not None:
                 cells['Z'][tc] = script.zpost
             o.status, o.iters = '.', k
